@@ -33,6 +33,51 @@ def fresh_run(ctx, tag, yaml_path, args, env=None, cwd=None, pre=None):
     return corpus.read_dir(od, skip_ext=(".log",)), out
 
 
+MANY_YAML = """\
+library: many
+cxx_header: many.hpp
+options:
+  wrap_python: true
+  wrap_lua: true
+declarations:
+- decl: typedef int LengthId
+  fields: {c_header: length_types.h, cxx_header: length_types.h}
+- decl: typedef int MassId
+  fields: {c_header: mass_types.h, cxx_header: mass_types.h}
+- decl: typedef long TimeId
+  fields: {c_header: time_types.h, cxx_header: time_types.h}
+- decl: typedef int AreaId
+  fields: {c_header: area_types.h, cxx_header: area_types.h}
+- decl: enum Color { RED, GREEN, BLUE }
+- decl: enum Shape { ROUND, SQUARE }
+- decl: void convert(LengthId len, MassId mass, TimeId tm, AreaId ar)
+- decl: MassId heavier(MassId a, MassId b)
+- decl: const std::string name(const std::string &s, const char *t)
+- decl: void fill(std::vector<int> &v +intent(out), std::vector<double> &w +intent(out))
+- decl: int *ints(int n) +dimension(n)+deref(allocatable)
+- decl: class Alpha
+  declarations:
+  - decl: Alpha()
+  - decl: ~Alpha()
+  - decl: Color paint(Shape s)
+  - decl: const std::string &label() const
+- decl: class Beta
+  declarations:
+  - decl: Beta()
+  - decl: void use(Alpha *a, LengthId l)
+- decl: namespace one
+  declarations:
+  - decl: void f1(TimeId t)
+  - decl: class Gamma
+    declarations:
+    - decl: Gamma()
+    - decl: MassId m() const
+- decl: namespace two
+  declarations:
+  - decl: void f2(AreaId a, const std::string &s)
+"""
+
+
 def job_for(descs, name):
     _, y, cmd = descs[name]
     return y, ["--path", os.path.join(vlib.REPO, "regression", "input")] + ARGS0 + cmd
@@ -104,6 +149,11 @@ def run(ctx):
     ctx.prove(os.path.join(vlib.COQ, "Properties", "C07.v"))
     import corpus
     descs = {d[0]: d for d in corpus.test_descs()}
+    # a generated description with several of everything that is collected in containers on the way to the output:
+    # typedef'd types with their own headers (shared between C and C++), classes, namespaces, enums, helper users
+    many = os.path.join(ctx.bdir, "many.yaml")
+    open(many, "w").write(MANY_YAML)
+    descs["gen-many"] = ("gen-many", many, [])
     quick = ctx.tier == "quick"
     gdir = os.path.join(ctx.bdir, "gen")
     os.makedirs(gdir, exist_ok=True)
@@ -124,7 +174,7 @@ def run(ctx):
 
     fails = []
     from concurrent.futures import ThreadPoolExecutor
-    pool = [n for n in POOL_Q if n in descs]
+    pool = [n for n in POOL_Q + ["gen-many"] if n in descs]
     names_all = sorted(descs)
     # ---- fresh reference runs
     ref_names = pool if quick else names_all
@@ -142,13 +192,18 @@ def run(ctx):
     # ---- R1 hash seed
     def r1(n):
         y, a = job_for(descs, n)
-        return n, fresh_run(ctx, "seed_" + n, y, a, env={"PYTHONHASHSEED": "4242"})
+        # the reference ran with seed 0; any of several other seeds must give the same bytes
+        for sd in ("4242", "1", "2", "3"):
+            files, out = fresh_run(ctx, "seed%s_%s" % (sd, n), y, a, env={"PYTHONHASHSEED": sd})
+            if files is None or files != refs[n]:
+                return n, (files, out)
+        return n, (files, out)
     with ThreadPoolExecutor(vlib.NCPU) as ex:
         for n, (files, out) in ex.map(r1, list(refs)):
             ctx.count(1, ("seed", n))
             ctx.hist("rel:hashseed")
             if files is None or files != refs[n]:
-                fails.append({"relation": "PYTHONHASHSEED 0 vs 4242", "input": n,
+                fails.append({"relation": "PYTHONHASHSEED 0 vs 4242/1/2/3", "input": n,
                               "files": sorted(k for k in set(refs[n]) | set(files or {}) if (files or {}).get(k) != refs[n].get(k))[:6]})
     # ---- R2 in-process histories
     hist = []
